@@ -95,9 +95,10 @@ static ares_status_t ares_search_next(ares_channel_t      *channel,
   status = ares_send_nolock(channel, NULL, 0, squery->dnsrec, search_callback,
                             squery, NULL);
 
-  if (status != ARES_EFORMERR) {
-    *skip_cleanup = ARES_TRUE;
-  }
+  /* ares_send_nolock() invokes the callback on every failure path, including
+   * ARES_EFORMERR (e.g. when the candidate name cannot be serialized), in
+   * which case search_callback() has already ended and freed the search. */
+  *skip_cleanup = ARES_TRUE;
 
   return status;
 }
